@@ -31,6 +31,13 @@ def main(argv=None):
     args = ap.parse_args(argv)
     seed = int(os.environ.get("VERIF_SEED", "0") or 0)
     t0 = time.time()
+    # global watchdog: a check that does not finish is an infrastructure failure (exit 2), never a verdict
+    import signal
+
+    def _timeout(signum, frame):
+        raise Infra("check timed out")
+    signal.signal(signal.SIGALRM, _timeout)
+    signal.alarm(5400 if args.tier != "thorough" else 6 * 3600)
     try:
         from . import props
         spec = props.PROPS.get(args.prop)
